@@ -1383,9 +1383,12 @@ def compile_pattern(compiler, pattern):
     elif isinstance(value, Expression) and value[0] == Symbol("."):
         root, syms = value
         dotform = mkexpr(root, *syms).replace(value)
+        node = compiler.compile(dotform).expr
+        if not (isinstance(node, ast.Attribute) and is_dotted_name(node)):
+            compiler._syntax_error(value, "a value pattern needs a dotted name")
         return asty.MatchValue(
             value,
-            value=compiler.compile(dotform).expr,
+            value=node,
         )
     elif isinstance(value, (Tuple, List)):
         patterns = value[0]
